@@ -5,9 +5,9 @@ use dryoc::types::*;
 use serde_json::json;
 use std::sync::Mutex;
 
-static STREAM: Mutex<(Vec<u8>, usize, Vec<(usize, usize)>)> = Mutex::new((Vec::new(), 0, Vec::new()));
+pub static STREAM: Mutex<(Vec<u8>, usize, Vec<(usize, usize)>)> = Mutex::new((Vec::new(), 0, Vec::new()));
 
-fn hook(dest: &mut [u8]) {
+pub fn hook(dest: &mut [u8]) {
     let mut g = STREAM.lock().unwrap();
     let c = g.1;
     let n = dest.len();
